@@ -101,7 +101,12 @@ def build(cfg, upto=None):
         if cfg.get("iter_features"):
             # ... or any other iterable, including a one-shot iterator
             afeat = iter(sorted(afeat, key=str))
-        arb = wishbone.Arbiter(addr_width=cfg["aw"], data_width=cfg["dw"], granularity=cfg["agran"], features=afeat)
+        kw_ = {"granularity": cfg["agran"], "features": afeat}
+        if cfg["n"] % 2 == 1 and not cfg["afeat"]:
+            del kw_["features"]                       # documented defaults: no features, granularity = data width
+        if cfg["n"] % 2 == 1 and cfg["agran"] == cfg["dw"]:
+            del kw_["granularity"]
+        arb = wishbone.Arbiter(addr_width=cfg["aw"], data_width=cfg["dw"], **kw_)
         for i in range(cfg["n"] if upto is None else upto):
             if i in cfg.get("refused_before", ()):
                 refused_add(arb, i)
